@@ -116,13 +116,25 @@ async fn serve_metrics<IB: Body>(_req: Request<IB>) -> Result<Response<Full<Byte
         .unwrap())
 }
 
-async fn serve_leases<IB: Body>(
-    _req: Request<IB>,
-    dhcp: &std::sync::Arc<crate::dhcp::DhcpService>,
-) -> Result<Response<Full<Bytes>>, Infallible> {
-    let mut leases = dhcp.get_leases().await;
-    leases.sort();
-    let buffer = format!(
+/// Escape a string as a JSON string literal (RFC 8259 section 7).
+fn json_string(s: &str) -> String {
+    let mut out = String::with_capacity(s.len() + 2);
+    out.push('"');
+    for c in s.chars() {
+        match c {
+            '"' => out.push_str("\\\""),
+            '\\' => out.push_str("\\\\"),
+            c if (c as u32) < 0x20 => out.push_str(&format!("\\u{:04x}", c as u32)),
+            c => out.push(c),
+        }
+    }
+    out.push('"');
+    out
+}
+
+/// Render the lease listing served at /api/v1/leases.json.
+pub fn leases_json(leases: &[crate::dhcp::pool::LeaseInfo]) -> String {
+    format!(
         "{{ \"leases\" : [\n{}\n]}}\n",
         leases
             .iter()
@@ -139,13 +151,22 @@ async fn serve_leases<IB: Body>(
                 crate::dhcp::dhcppkt::parse_options(crate::pktparser::Buffer::new(&li.options))
                     .ok()
                     .and_then(|o| o.get_hostname())
-                    .map(|h| format!(", \"host-name\": {:?}", h))
+                    .map(|h| format!(", \"host-name\": {}", json_string(&h)))
                     .or_else(|| Some("".to_string()))
                     .unwrap(),
             ))
             .collect::<Vec<_>>()
             .join(",\n")
-    );
+    )
+}
+
+async fn serve_leases<IB: Body>(
+    _req: Request<IB>,
+    dhcp: &std::sync::Arc<crate::dhcp::DhcpService>,
+) -> Result<Response<Full<Bytes>>, Infallible> {
+    let mut leases = dhcp.get_leases().await;
+    leases.sort();
+    let buffer = leases_json(&leases);
 
     Ok(Response::builder()
         .status(200)
